@@ -287,6 +287,18 @@ def _run_unit1(name, prop, canary, mutate, suffix, multiple_errors):
                         f["fn"] = l["fn"]
             elif (s.get("label") or "").startswith("at the end of the function body"):
                 f["site"] = {"exit": "end"}
+                if f["fn"] is None:
+                    l = u.locate(s["byte_start"])
+                    f["fn"] = l.get("fn")
+                    if "file" in l and f["loc"] is None:
+                        f["loc"] = f"{l['file']}:{l['line']}"
+        if not ctag and not prim:
+            # the failed clause is not in the generated file: a contract vstd attaches to a std trait
+            # method the real code implements (e.g. PartialEq::eq of std_specs/cmp.rs)
+            ext = [x for x in d.get("spans", []) if x.get("is_primary")]
+            if ext:
+                f["clause"] = "vstd:" + os.path.basename(ext[0].get("file_name", "?")) + ":" + str(ext[0].get("line_start", "?"))
+                f["clause_where"] = "vstd " + ext[0].get("file_name", "?")
         if ctag:
             f["clause"] = ctag.get("clause") or ctag.get("label")
             f["tags"] = ctag.get("tags")
